@@ -13,7 +13,7 @@
           ordered outputs-then-inputs;
       (e) forall c, expand (contract_einsum (merge (circuit_net c) |0..0>)) = column0 (cmat nw c).
     They are covered by the correspondence/oracle run only (checks/C05.py). *)
-From Qib Require Import Embed.CircProofs Embed.HeapProofs Base.Inst.
+From Qib Require Import Embed.CircProofs Embed.HeapProofs Embed.HeapObs Base.Inst.
 From Run Require Import GenCirc.
 
 (** (a) the circuit matrix is the product of the embedded gate matrices in application order:
@@ -69,9 +69,10 @@ Print Assumptions C05_statevector_is_first_column.
 (** (c, converse) a single __copy__ that is shallow in a gate-valued field breaks capture by value:
     construct target t, construct g with field t, append g, mutate t *)
 Theorem C05_shallow_copy_breaks_by_value :
-  forall (deep : nat -> bool) cls0, deep cls0 = false ->
-    exists es, map (map erase) (circuits (run deep es)) <> snd (vrun deep init [] es).
-Proof. intros deep cls0 H. eexists. apply (shallow_copy_refuted deep cls0 H). Qed.
+  forall (deep : nat -> bool) ctor cls0, deep cls0 = false ->
+    exists es l vl, nth_error (circuits (run deep ctor es)) 0 = Some l /\
+                    nth_error (snd (vrun deep ctor init [] es)) 0 = Some (true, vl) /\ map erase l <> vl.
+Proof. intros deep ctor cls0 H. eexists. apply (shallow_copy_refuted deep ctor cls0 H). Qed.
 Print Assumptions C05_shallow_copy_breaks_by_value.
 
 (** every __copy__ found in gates.py is deep in its gate-valued fields *)
@@ -81,24 +82,93 @@ Proof.
   do 64 (try (destruct cls as [|cls]; [reflexivity|])). reflexivity.
 Qed.
 
-(** (c) HISTORIES: for every sequence of gate constructions, builder calls on any number of
-    circuits (append_gate, prepend_gate, append_circuit, prepend_circuit) and mutations of the
-    caller's gate objects (attribute assignment / mutators on the object or on targets reached
-    through target_gate()/target_gates(), assignment of gate-valued fields), every circuit
-    denotes the gates as they were when added, and no object of a circuit is reachable from a
-    caller handle.  In-place mutation of numpy arrays / operators / qubit objects handed to a gate,
-    and mutation through circuit.gates, are outside the event alphabet. *)
+(** (c) HISTORIES: for every sequence of gate constructions, circuit constructions (empty, or by the list
+    constructor Circuit([g1, ...]) from the caller's objects), builder calls on any number of circuits
+    (append_gate, prepend_gate, append_circuit, prepend_circuit - the given circuit may itself be
+    list-constructed), mutations of the caller's gate objects (attribute assignment / mutators on the
+    object or on targets reached through target_gate()/target_gates(), assignment of gate-valued fields) and
+    mutations through a circuit's own gate list (c.gates[i], or a target reached from it):
+    every circuit that the ghost flags "by value" - all but those made by a non-copying list constructor -
+    denotes the gates as they were when added (and as mutated through ITS OWN gate list); its objects are
+    pairwise distinct, unreachable from any caller handle and not shared with any other circuit.
+    The list constructor as the code has it now ([gen_ctor_copies]) decides the flag of the circuits it makes;
+    C05_list_constructor_by_reference_refuted below is the known finding Circuit.__init__:gates-captured-by-reference.
+    In-place mutation of numpy arrays / operators / qubit objects handed to a gate is outside the event alphabet. *)
 Theorem C05_histories_capture_by_value :
-  forall es : list event,
-    map (map erase) (circuits (run gen_copy_deep es)) = snd (vrun gen_copy_deep init [] es) /\
-    (forall c i, In c (circuits (run gen_copy_deep es)) -> In i (ids_l c) ->
-                 ~ In i (ids_l (handles (run gen_copy_deep es)))).
+  forall (es : list event) c l vl,
+    nth_error (circuits (run gen_copy_deep gen_ctor_copies es)) c = Some l ->
+    nth_error (snd (vrun gen_copy_deep gen_ctor_copies init [] es)) c = Some (true, vl) ->
+    map erase l = vl /\
+    NoDup (ids_l l) /\
+    (forall x, In x (ids_l l) -> ~ In x (ids_l (handles (run gen_copy_deep gen_ctor_copies es)))) /\
+    (forall x c' l', In x (ids_l l) -> c' <> c ->
+       nth_error (circuits (run gen_copy_deep gen_ctor_copies es)) c' = Some l' -> ~ In x (ids_l l')).
 Proof.
-  intros es. split.
-  - apply histories_by_value. exact gen_copy_all_deep.
-  - apply histories_separated. exact gen_copy_all_deep.
+  intros es c l vl Hc Hg. split.
+  - apply (histories_by_value gen_copy_deep gen_ctor_copies gen_copy_all_deep es c l vl Hc Hg).
+  - apply (histories_separated gen_copy_deep gen_ctor_copies gen_copy_all_deep es c l vl Hc Hg).
 Qed.
 Print Assumptions C05_histories_capture_by_value.
+
+(** (c, as stated before the list constructor entered the alphabet) histories without list-constructed circuits:
+    ALL circuits denote the by-value reference *)
+Theorem C05_histories_without_list_constructor :
+  forall es : list event, Forall not_list_ctor es ->
+    map (map erase) (circuits (run gen_copy_deep gen_ctor_copies es))
+    = map snd (snd (vrun gen_copy_deep gen_ctor_copies init [] es)).
+Proof. intros es H. apply (histories_by_value_all gen_copy_deep gen_ctor_copies gen_copy_all_deep es). right. exact H. Qed.
+Print Assumptions C05_histories_without_list_constructor.
+
+(** the list constructor of /repo keeps the caller's objects: x = Gate(); c = Circuit([x]); mutate x changes c
+    (known finding; the circuit is flagged "not by value" in the ghost and excluded above) *)
+Theorem C05_list_constructor_by_reference_refuted :
+  gen_ctor_copies = false /\
+  forall cls0, exists es l,
+    nth_error (circuits (run gen_copy_deep gen_ctor_copies es)) 0 = Some l /\
+    nth_error (snd (vrun gen_copy_deep gen_ctor_copies init [] es)) 0 = Some (false, [GVal cls0 [] []]) /\
+    map erase l <> [GVal cls0 [] []].
+Proof. split; [reflexivity|]. intros cls0. eexists. apply (ctor_by_reference_refuted gen_copy_deep cls0). Qed.
+Print Assumptions C05_list_constructor_by_reference_refuted.
+
+(** (c') OBSERVATIONS INTERLEAVED WITH THE HISTORY: queries of a circuit's gate list (what as_matrix, the simulators
+    and the tensor network are computed from) may occur anywhere between the events above, and the caller may
+    overwrite results it was handed ([Scribble]).  The code recomputes every view ([trace]); for ANY implementation
+    that caches the view, keyed on the query, with a cache reset at least by every event other than gate
+    construction / mutation of caller objects, and that hands out copies: what the caller holds at the end is what
+    recomputation gives - every query returned the by-value reference of that moment ([hview_ghost]), results
+    handed out earlier are snapshots, and writing into them affects nothing. *)
+Theorem C05_observations_interleaved_by_value :
+  forall (inval : event -> bool) (es : list (oev event nat (option (list gval)))),
+    (forall e, changes_circuits e = true -> inval e = true) ->
+    mobs _ _ _ (mrun _ _ _ _ (hstep gen_copy_deep gen_ctor_copies) hview hqeqb inval false hinit es)
+    = map Some (trace _ _ _ _ (hstep gen_copy_deep gen_ctor_copies) hview hinit [] es).
+Proof. intros inval es H. apply (circuit_observations_by_value gen_copy_deep gen_ctor_copies gen_copy_all_deep inval es H). Qed.
+Print Assumptions C05_observations_interleaved_by_value.
+
+(** ... and the query answers of the reference are the ghost values *)
+Theorem C05_query_returns_by_value_reference :
+  forall (es : list event) c,
+    let sg := fold_left (hstep gen_copy_deep gen_ctor_copies) es hinit in
+    hview sg c = match nth_error (snd sg) c with Some (true, vl) => Some vl | _ => None end.
+Proof.
+  intros es c sg. apply hview_ghost. unfold sg.
+  assert (G : forall es sg0, HInv sg0 -> HInv (fold_left (hstep gen_copy_deep gen_ctor_copies) es sg0)).
+  { clear. induction es as [|e es IH]; intros sg0 H; [exact H|]. cbn. apply IH. apply HInv_step; [exact gen_copy_all_deep|exact H]. }
+  apply G. apply init_inv.
+Qed.
+Print Assumptions C05_query_returns_by_value_reference.
+
+(** conversely a cache that ONE builder call does not reset is observable: as_matrix; prepend_circuit; as_matrix *)
+Theorem C05_cache_not_reset_by_a_builder_call_refuted :
+  forall (inval : event -> bool) alias, inval (EPrependCircuit 0 1) = false ->
+    exists s0 es,
+      mobs _ _ _ (mrun _ _ _ _ (hstep gen_copy_deep gen_ctor_copies) hview hqeqb inval alias s0 es)
+      <> map Some (trace _ _ _ _ (hstep gen_copy_deep gen_ctor_copies) hview s0 [] es).
+Proof.
+  intros inval alias H. eexists. eexists.
+  apply (circuit_cache_not_reset_by_prepend_circuit_refuted gen_copy_deep gen_ctor_copies inval alias H).
+Qed.
+Print Assumptions C05_cache_not_reset_by_a_builder_call_refuted.
 
 (** non-vacuity: H-free exact instance: X on wire 2, then CNOT (control wire 0 negated, target
     wire 2) on a 3-wire register; product order, first column, unit norm *)
